@@ -56,6 +56,10 @@ theorem stepOne_frame (env : Env W.toTypes) (c : W.Cfg) (cur : Option Nat) (s : 
     simp only [stepOne] at h
     simp at h
     obtain ⟨_, rfl, _⟩ := h; rfl
+  | effect m =>
+    simp only [stepOne] at h
+    simp at h
+    obtain ⟨_, rfl, _⟩ := h; rfl
   | notify m =>
     simp only [stepOne] at h
     repeat' split at h
@@ -79,6 +83,7 @@ theorem stepOne_stop (env : Env W.toTypes) (c : W.Cfg) (cur : Option Nat) (s : K
     · split at h <;> simp at h
     · simp at h
   | bindCurLayer => simp [stepOne] at h
+  | effect m => simp [stepOne] at h
   | notify m =>
     simp only [stepOne] at h
     repeat' split at h
@@ -336,10 +341,12 @@ theorem runSteps_append (env : Env W.toTypes) (c : W.Cfg) (A B : List RStep) (cu
       | stop r => simp
       | cont cur' s' log' => simp [ih]
 
-/-- statements that neither send anything nor bind `cur_layer`: `self.f = <cfg …>` and `callee(..)?` -/
+/-- statements that neither send anything nor bind `cur_layer`: `self.f = <cfg …>`, `callee(..)?`
+and `self.helper();` -/
 def isSilent : RStep → Bool
   | .assign _ true => true
   | .fallible _ => true
+  | .effect _ => true
   | _ => false
 
 /-- all the `self.f = <cfg …>` assignments of a statement list, applied in order -/
@@ -388,7 +395,88 @@ theorem runPrefix_silent (env : Env W.toTypes) (c : W.Cfg) (A : List RStep) (cur
     | fallible callee =>
       have := hf callee (by simp [mem_falliblesOf])
       simp [runPrefix, stepOne, applyCfg, this, ih _ hA.2 hf']
+    | effect m => simp [runPrefix, stepOne, applyCfg, ih _ hA.2 hf']
     | _ => simp [isSilent] at hA
+
+/-- `self.f = <constant>` / `self.prev_layer = cur_layer` -/
+def isReset : RStep → Bool
+  | .assign _ false => true
+  | _ => false
+
+/-- all the `self.f = <not cfg>` assignments of a statement list, applied in order, with
+`cur_layer = l` -/
+def applyReset (l : Nat) : List RStep → KSt W → KSt W
+  | [], s => s
+  | .assign f false :: rest, s => applyReset l rest (s.set f (resetVal (W := W) l f))
+  | _ :: rest, s => applyReset l rest s
+
+theorem applyReset_get (l : Nat) (R : List RStep) (s : KSt W) (g : Field) :
+    (applyReset l R s) g = if g ∈ assignedReset R then resetVal (W := W) l g else s g := by
+  induction R generalizing s with
+  | nil => simp [applyReset, assignedReset]
+  | cons st rest ih =>
+    cases st with
+    | assign f b =>
+      cases b with
+      | false =>
+        simp only [applyReset, ih, mem_assignedReset, List.mem_cons, RStep.assign.injEq, and_true]
+        by_cases hg : g = f
+        · subst hg; simp
+        · simp [hg, St.set_other _ _ _ _ hg]
+      | true =>
+        simp only [applyReset, ih, mem_assignedReset, List.mem_cons]
+        simp
+    | _ => simp only [applyReset, ih, mem_assignedReset, List.mem_cons]; simp
+
+/-- a block of resets after `let cur_layer` just performs its assignments -/
+theorem runPrefix_resets (env : Env W.toTypes) (c : W.Cfg) (R : List RStep) (l : Nat) (s : KSt W)
+    (log : List Msg) (hR : R.all isReset = true) :
+    runPrefix env c R (some l) s log = .ok (.cont (some l) (applyReset l R s) log) := by
+  induction R generalizing s with
+  | nil => simp [runPrefix, applyReset]
+  | cons st rest ih =>
+    simp only [List.all_cons, Bool.and_eq_true] at hR
+    cases st with
+    | assign f b =>
+      cases b with
+      | false => simp [runPrefix, stepOne, applyReset, ih _ hR.2]
+      | true => simp [isReset] at hR
+    | _ => simp [isReset] at hR
+
+def isFallible : RStep → Bool
+  | .fallible _ => true
+  | _ => false
+
+/-- a block of fallible calls either returns early with everything untouched or changes nothing -/
+theorem runPrefix_fallibles (env : Env W.toTypes) (c : W.Cfg) (F : List RStep) (cur : Option Nat)
+    (s : KSt W) (log : List Msg) (hF : F.all isFallible = true) :
+    (runPrefix env c F cur s log = .ok (.stop ⟨s, log, false⟩) ∧
+      ∃ callee ∈ falliblesOf F, env.callFails callee c = true) ∨
+    (runPrefix env c F cur s log = .ok (.cont cur s log) ∧
+      ∀ callee ∈ falliblesOf F, env.callFails callee c = false) := by
+  induction F with
+  | nil => right; simp [runPrefix, falliblesOf]
+  | cons st rest ih =>
+    simp only [List.all_cons, Bool.and_eq_true] at hF
+    cases st with
+    | fallible callee =>
+      by_cases hc : env.callFails callee c = true
+      · left
+        exact ⟨by simp [runPrefix, stepOne, hc], callee, by simp [mem_falliblesOf], hc⟩
+      · have hc' : env.callFails callee c = false := by simpa using hc
+        rcases ih hF.2 with ⟨h1, callee', hm, hf⟩ | ⟨h1, hall⟩
+        · left
+          refine ⟨by simp [runPrefix, stepOne, hc', h1], callee', ?_, hf⟩
+          rw [mem_falliblesOf] at hm ⊢
+          exact List.mem_cons_of_mem _ hm
+        · right
+          refine ⟨by simp [runPrefix, stepOne, hc', h1], ?_⟩
+          intro callee' hm
+          rw [mem_falliblesOf] at hm
+          rcases List.mem_cons.1 hm with e | e
+          · cases e; exact hc'
+          · exact hall callee' ((mem_falliblesOf _ _).2 e)
+    | _ => simp [isFallible] at hF
 
 /-! ### the request flag through a tick -/
 
